@@ -82,6 +82,29 @@ CLAIMED["C13"] = dict(
          "kernel, Model/Settings.v, Lib/Base64.v, translator facts, tomllib, extraction + driver, harness engines",
     design="DESIGN.md 5 C13")
 
+CLAIMED["C02"] = dict(
+    text="Coq theorems over the timed model of pipe.rs for EVERY pair of endpoint scripts (chunkings, partial-acceptance patterns, "
+         "readiness instants hence interleavings and idle-timer restarts, every failure position): after every event the delivered "
+         "bytes are a prefix of the bytes read and credit = metrics = bytes forwarded; a clean end implies every byte was delivered, "
+         "then EOF passed on and flushed, in both directions; a failure of either side ends the tunnel with an error and never "
+         "cleanly; restarts lose nothing. Tied by regenerated structural facts of pipe.rs and a differential run of the real "
+         "DuplexPipe::exchange on scripted endpoints under tokio's paused clock against the extracted model (outcome, end instant, "
+         "all counters), plus direct oracles on the real run",
+    note="partial: cancel-safety of library reads (h2, quiche, mpsc) is assumed; real socket back-pressure is replaced by scripted "
+         "acceptance patterns; trusted: Coq kernel, Model/Pipe.v, translator facts, extraction + driver, harness door verif::pipe",
+    design="DESIGN.md 5 C02")
+CLAIMED["C14"] = dict(
+    text="Coq theorems on the same timed model: a close by the idle timer implies neither direction transferred during the last T "
+         "(so a tunnel with a transfer in every period is never closed), last_activity moves only on transfers, and from any "
+         "reachable state where both directions wait forever the tunnel is closed with TimedOut no later than 2T after the last "
+         "transfer (exact virtual clock); establishment / handshake timeouts are regenerated structural facts (connect under "
+         "connection_establishment_timeout -> 502/302, TLS accept under tls_handshake_timeout). Tied by the differential run of the "
+         "real DuplexPipe under the paused clock on activity patterns around T (incl. exact ties) with direct 'not before T, not "
+         "after 2T' oracles",
+    note="partial: tokio's timer is modelled as exact (a late timer only delays a close); establishment/handshake timeouts are not "
+         "driven here (C10 drives the 502/302 path); trusted as for C02",
+    design="DESIGN.md 5 C14")
+
 PENDING_REASON = "check under construction in this round (designed in DESIGN.md, not yet wired into ./check)"
 
 
